@@ -256,6 +256,24 @@ def suite_C07():
                         ('round', lambda x: math.floor(x + Fraction(1, 2)) if x >= 0 else -math.floor(-x + Fraction(1, 2)))]:
             cases.append(('r%d' % k, '%s(%s)' % (name, ea), str(f(a)), dict(a=str(a), op=name, level_a=la)))
             k += 1
+    # the rounding family on floats: the exact integer, whatever the magnitude (floats next to 2^53, 2^63, 2^64 are integers already)
+    fl = [0.5, 1.5, 2.5, -0.5, -1.5, -2.5, 2.9, -2.9, 0.0, 1e15 + 0.5, -1e15 - 0.5, 2.0**52 + 0.5, 2.0**53, 2.0**53 + 2, 2.0**62, 2.0**63, -2.0**63, 2.0**63 - 1024,
+          -2.0**63 - 2048, 2.0**64, 1e30, -1e30, 1.7976931348623157e308]
+    for x in fl:
+        e = ('(0-%s)' % repr(-x)) if x < 0 else repr(x)
+        if 'e' in e:
+            e = ('(0-%d.0)' % int(-x)) if x < 0 else '%d.0' % int(x)
+        rnd = math.floor(Fraction(x) + Fraction(1, 2)) if x >= 0 else -math.floor(-Fraction(x) + Fraction(1, 2))
+        for name, v in [('floor', math.floor(x)), ('ceil', math.ceil(x)), ('round', rnd), ('int', int(x))]:
+            cases.append(('rf%d' % k, '%s(%s)' % (name, e), str(v), dict(x=repr(x), op=name, what='rounding of a float is the exact integer')))
+            k += 1
+            if name != 'int':      # int(...) is the type conversion and is not applied element-wise
+                cases.append(('rv%d' % k, 'list(%s(V(%s, 1)))' % (name, e), '[%s, 1]' % v, dict(x=repr(x), op=name, what='rounding of a float inside a vector')))
+                k += 1
+    for e, shown in [('(1.0/0.0)', 'inf'), ('(0-1.0/0.0)', '-inf'), ('(0.0/0.0)', 'NaN')]:
+        for name in ['floor', 'ceil', 'round', 'int']:
+            cases.append(('rn%d' % k, '%s(%s)' % (name, e), shown, dict(x=e, op=name, what='a non-finite float has no integer: it stays as it is')))
+            k += 1
     # element-wise action on vectors with scalars broadcast on either side
     for op, f in ops.items():
         if op == '/':
@@ -1110,6 +1128,36 @@ def suite_C13():
             else:
                 runs.append([x])
         add('%s group (<)' % nlit(xs), nlit(runs), what='group by relation compares neighbours')
+    # lines / words / split on texts with carriage returns, tabs and empty pieces (reference: Python)
+    for raw in ['a\\r\\nb\\r\\n', '\\r\\n', 'a\\rb', 'a\\r', 'x\\n\\ny', '\\n\\n', 'a\\tb  c\\n d', ' \\t ', 'no newline', 'tail\\n']:
+        py = raw.replace('\\r', '\r').replace('\\n', '\n').replace('\\t', '\t')
+        pieces = py.split('\n')
+        if pieces and pieces[-1] == '':
+            pieces = pieces[:-1]
+        show = lambda xs_: '[%s]' % ', '.join('"%s"' % x.replace('\r', '\\r').replace('\t', '\\t').replace('\n', '\\n') for x in xs_)
+        add('lines("%s")' % raw, show(pieces), what='lines keeps everything but the line feeds', text=raw)
+        add('words("%s")' % raw, show(py.split()), what='words splits on runs of white space', text=raw)
+        add('"%s" split "\\n"' % raw, show(py.split('\n')), what='split keeps empty pieces', text=raw)
+        add('unwords(words("%s")) == (words("%s") join " ")' % (raw, raw), '1', what='unwords joins with one space', text=raw)
+    # sum / product / min / max / any / all are folds: they agree with the fold written out, also on mixed and odd inputs
+    odd = ['[3, 0, V(1, 2)]', '[0, V()]', '[2, 0, 1/0.0]', '[0, 2i]', '[4, 0, "x"]', '[0, null]', '[0, [1, 2]]', '[V(1, 2), 0]', '[1/2, 0.5, 2]', '[0.0, V(1, 2)]', '[]', '[0]',
+           '[2, 3, 0, 5]', '[1, 2, V(1, 2), 3]', '["a", "b"]', '[1, "a"]', '(1 til 5)', 'V(2, 0, 3)']
+    for X in odd:
+        for agg, fold_ in [('product(%s)', '%s fold * from 1'), ('sum(%s)', '%s fold + from 0')]:
+            lhs = '(try str(%s) catch vze -> "ERR")' % (agg % X)
+            rhs = '(try str(%s) catch vze -> "ERR")' % (fold_ % X)
+            add('%s == %s' % (lhs, rhs), '1', what='aggregate agrees with its fold definition', input=X, aggregate=agg.split('(')[0])
+        for agg, op_ in [('max(%s)', 'max'), ('min(%s)', 'min')]:
+            lhs = '(try str(%s) catch vze -> "ERR")' % (agg % X)
+            rhs = '(try str(%s fold %s) catch vze -> "ERR")' % (X, op_)
+            add('%s == %s' % (lhs, rhs), '1', what='extremum agrees with its fold definition', input=X, aggregate=op_)
+    for X in ['[0, 0, 3]', '[0, V(0, 1)]', '[1, "x"]', '[0, null]', '[]', '[null]', '[[], [0]]', '["", "a"]']:
+        lhs = '(try str(any(%s)) catch vze -> "ERR")' % X
+        rhs = '(try str((%s filter (\\vzx -> vzx)) != []) catch vze -> "ERR")' % X
+        add('%s == %s' % (lhs, rhs), '1', what='any is "some element is truthy"', input=X)
+        lhs = '(try str(all(%s)) catch vze -> "ERR")' % X
+        rhs = '(try str((%s reject (\\vzx -> vzx)) == []) catch vze -> "ERR")' % X
+        add('%s == %s' % (lhs, rhs), '1', what='all is "no element is falsy"', input=X)
     # stability and mixed numeric kinds
     add('[[2, "a"], [1, "b"], [2, "c"], [1, "d"]] sort_on first', '[[1, "b"], [1, "d"], [2, "a"], [2, "c"]]', what='sort_on is stable')
     add('sort([[2, "a"], [1, "b"], [2, "c"], [1, "d"]] map first)', '[1, 1, 2, 2]', what='sort')
